@@ -3622,6 +3622,40 @@ func (c *fctx) ob(ins ssa.Instruction, kind, expr, need string, target *Lin, lif
 // only. Only the direct case is handled: every atom of target is a parameter
 // atom and the local branch facts are irrelevant.
 func (c *fctx) liftTarget(b *ssa.BasicBlock, target *Lin) (*Lin, bool) {
+	// a loop variable that only grows from a parameter-given start (invariant "v >= initial value"): for a
+	// lower bound it is enough to demand the bound of the start
+	isParamAtom := func(a string) bool { return strings.HasPrefix(a, "p:") || strings.HasPrefix(a, "len:p:") }
+	subst := target.Clone()
+	for a, k := range target.T {
+		if isParamAtom(a) || k.Sign() <= 0 {
+			continue
+		}
+		for _, f := range c.intr[a] {
+			// f: a - L >= 0 with L over parameters only
+			ka, ok := f.L.T[a]
+			if !ok || ka.Cmp(ratOne) != 0 || !strings.HasPrefix(f.Why, "IV:") {
+				continue
+			}
+			rest := f.L.Clone()
+			delete(rest.T, a)
+			allParam := len(rest.T) > 0
+			for o := range rest.T {
+				if !isParamAtom(o) {
+					allParam = false
+				}
+			}
+			if !allParam {
+				continue
+			}
+			// a >= -rest  =>  k*a >= -k*rest
+			delete(subst.T, a)
+			subst = subst.AddScaled(rest, new(big.Rat).Neg(k))
+			break
+		}
+	}
+	origAtoms := target.T
+	target = subst
+	_ = origAtoms
 	out := NewLin()
 	out.C.Set(target.C)
 	for a, k := range target.T {
